@@ -69,6 +69,10 @@ def main():
         print(json.dumps(res, default=str)); return
     t0 = time.time(); tried = 0
     nn = a.n if a.mode == 'check' else 10 ** 6
+    for c_, q_ in corpus_objects(('r2', 'r3')):          # distilled regression inputs first
+        v, n = predict(c_, q_)
+        res['predictions_checked'] += n; res['violations'] += v; res['configs'] += 1
+        dist['corpus'] = dist.get('corpus', 0) + 1
     while tried < nn and (a.mode == 'check' or (time.time() - t0 < a.budget and not res['violations'])):
         tried += 1
         try:
